@@ -61,6 +61,7 @@ unsigned char body[B];        /* bytes available on descriptor 0 (values matter 
 unsigned int bodylen;
 unsigned int body_errpos;
 unsigned char tape[TAPE];     /* one byte per nondeterministic environment decision */
+unsigned char feedtape[8];    /* chunk sizes of substdio_feed() on the envelope descriptor (only looked at by code that feeds) */
 unsigned char fill;           /* MODE 2: the byte the long address is made of */
 unsigned int alarm_at;        /* MODE 0: SIGALRM arrives just before system call number alarm_at (none if out of range) */
 
@@ -70,7 +71,7 @@ void sym_inputs(void)
 #include "replay_inputs.inc"
 #else
   SYM_ARR(env); SYM(envlen); SYM(env_errpos); SYM_ARR(body); SYM(bodylen); SYM(body_errpos);
-  SYM_ARR(tape); SYM(fill); SYM(alarm_at);
+  SYM_ARR(tape); SYM(fill); SYM(alarm_at); SYM_ARR(feedtape);
 #endif
 }
 
@@ -189,13 +190,9 @@ int substdio_put(substdio *s, const char *buf, size_t len) { return put_model(s,
 int substdio_bput(substdio *s, const char *buf, size_t len) { return put_model(s, buf, (unsigned int) len); }
 int substdio_flush(substdio *s) { V(8, s == &ssout); return flush_pending(s); }
 
-ssize_t substdio_get(substdio *s, char *buf, size_t len)
+/* next byte of the envelope descriptor: 1 and *c, 0 at end of input, -1 on a read error */
+static int env_next(unsigned char *cp)
 {
-  /* envelope descriptor, one byte at a time */
-  V(9, s == &ssin && s->fd == 1 && len == 1);
-#if MODE != 2
-  crash_check();                                       /* a read is a system call too */
-#endif
 #if MODE == 2
   {
     unsigned int p = envpos;
@@ -207,15 +204,65 @@ ssize_t substdio_get(substdio *s, char *buf, size_t len)
     else if (p >= a0 && p < a0 + L) c = 'a';   /* concrete: a symbolic byte makes every `if (!ch) break` a fork */
     else c = 0;
     if (p >= a0 + L + 2) return 0;
-    ++envpos; *buf = (char) c; return 1;
+    ++envpos; *cp = c; return 1;
   }
 #else
   if (envpos == env_errpos) { if (!fault_code) fault_code = 54; errno = EIO; return -1; }
   if (envpos >= envlen || envpos >= E) return 0;
-  *buf = (char) env[envpos++];
+  *cp = env[envpos++];
   return 1;
 #endif
 }
+
+static int env_fed;            /* ssin.p counts bytes that substdio_feed() left at ssin.x + ssin.n */
+
+ssize_t substdio_get(substdio *s, char *buf, size_t len)
+{
+  unsigned char c;
+  int r;
+  /* envelope descriptor, one byte at a time */
+  V(9, s == &ssin && s->fd == 1 && len == 1);
+  if (env_fed && s->p > 0) { *buf = s->x[s->n]; s->n++; s->p--; return 1; }   /* what feed buffered comes first */
+#if MODE != 2
+  crash_check();                                       /* a read is a system call too */
+#endif
+  r = env_next(&c);
+  if (r == 1) *buf = (char) c;
+  return r;
+}
+
+/* substdio_feed()/PEEK/SEEK on the envelope descriptor (contract of substdi.c: 1..size unread bytes in place, how many is
+ * the read() boundary and nothing the caller controls): chunks of 1..4 bytes chosen by feedtape[] (MODE 2, the 1000-byte
+ * addresses: always 4), placed at a fixed offset of the program's own buffer.  Only a tree whose envelope reader scans
+ * its buffer in place gets here. */
+ssize_t substdio_feed(substdio *s)
+{
+  static unsigned int nfeed;
+  static int cap;
+  unsigned int q, i = 0;
+  int r = 1, base;
+  unsigned char c;
+  V(9, s == &ssin && s->fd == 1);
+  if (env_fed && s->p > 0) return s->p;
+  if (!env_fed) { cap = s->n; env_fed = 1; }
+  V(9, cap >= 8);
+  base = cap - 4;
+#if MODE != 2
+  crash_check();
+  q = 1u + feedtape[nfeed % 8] % 4u; ++nfeed;
+#else
+  q = 4;
+#endif
+  if (i < q && r == 1) { r = env_next(&c); if (r == 1) { s->x[base + i] = (char) c; ++i; } }
+  if (i < q && r == 1) { r = env_next(&c); if (r == 1) { s->x[base + i] = (char) c; ++i; } }
+  if (i < q && r == 1) { r = env_next(&c); if (r == 1) { s->x[base + i] = (char) c; ++i; } }
+  if (i < q && r == 1) { r = env_next(&c); if (r == 1) { s->x[base + i] = (char) c; ++i; } }
+  s->n = base; s->p = (int) i;
+  if (i) return (ssize_t) i;                     /* a read error behind delivered bytes is reported by the next call */
+  return r;
+}
+char *substdio_peek(substdio *s) { return s->x + s->n; }
+void substdio_seek(substdio *s, int len) { s->n += len; s->p -= len; }
 
 int substdio_copy(substdio *out, substdio *in)
 {
